@@ -6,7 +6,7 @@ NOT_APPLICABLE_FAULTS = {
     "message_loss_duplication_reordering_delay": "a5-rs has no network or message passing",
     "partition_and_heal": "single process, no peers",
     "crash_restart_with_durable_state": "a5-rs writes no durable state; the only restart it has is a caller thread ending and a new one starting with a cold memo, which is injected as thread_exit / thread_spawn_cold / restart_after_exit",
-    "clock_skew_and_jumps": "no clock, timer, deadline or timeout anywhere under src/",
+    "clock_skew": "single process, one clock: there is no second node whose clock could disagree. (Clock JUMPS are injected, see faults_fired: a5-rs reads no clock today, but a change that introduces one is exercised through an LD_PRELOAD seam.)",
     "disk_errors_short_torn_lost_writes_full_disk": "no file or stream I/O under src/",
     "failing_allocations_and_syscalls": "Rust aborts on allocation failure (no recoverable path to check); no system calls besides thread-local and once-cell primitives of std",
 }
@@ -27,6 +27,8 @@ def h_engine_summary(o):
         "late_join": s["late_join"],
         "restart_after_exit": s["restart_after_exit"],
         "hash_rekey": s["hash_rekey"],
+        "clock_jump(LD_PRELOAD clock seam: simulated CLOCK_MONOTONIC/REALTIME leap forward 1 ms .. 30 days)": s.get("clock_jumps", 0),
+        "calls_from_thread_local_destructor_at_thread_exit": s.get("teardown_ops", 0),
         "instance_handoff": s["instance_handoff"],
         "long_haul_threshold_crossed": s["long_haul_threshold_crossed"],
         "caught_panic_same_cold_and_warm": s["caught_panic_same"],
